@@ -44,21 +44,25 @@ def key(s):
     return (a, int(b))
 seeds.sort(key=key)
 rows = ["| seed | round | needs, to manifest | what was run / result |", "|---|---|---|---|"]
-missed = neutral = 0
+missed = neutral = undetected = 0
 for s in seeds:
     w = s['what_was_run']
     if 'initially missed' in w or 'first missed' in w or 'first run aborted' in w or 'invisible to plain' in w:
         missed += 1
     if w.startswith('neutralised'):
         neutral += 1
+    if 'Recorded as not' in w:
+        undetected += 1
     rows.append(f"| {s['seed']} | {s.get('round', 1)} | {esc(s['needs_to_manifest'])} | {esc(w)} |")
 gen['seeds'] = '\n'.join(rows)
 gen['seedcount'] = (f"**{len(seeds)} seeded changes** are kept ({sum(1 for s in seeds if s.get('round',1)==1)} from round 1 on the pinned tree, "
-                    f"{sum(1 for s in seeds if s.get('round',1)==2)} from round 2 on the repaired tree). **{len(seeds)-neutral} are reported by the quick tier of their "
+                    f"{sum(1 for s in seeds if s.get('round',1)>=2)} from rounds 2-5 on the repaired tree). **{len(seeds)-neutral-undetected} are reported by the quick tier of their "
                     f"property's check; {missed} of those were missed at first** and led to a stronger check (the last column says what was added); "
-                    f"{neutral} are neutralised: after a repair the seeded change is behaviour-preserving on the current tree and the check correctly stays silent. "
+                    f"{neutral} are neutralised: after a repair the seeded change is behaviour-preserving on the current tree and the check correctly stays silent; "
+                    f"{undetected} (from rounds 4 and 5) are **not detected by the check of their own property** and are recorded as such in the table "
+                    "(three are reported by another property's check instead, one aborts the engine instead of producing a verdict, one needs a continuous virtual clock that the harness does not have). "
                     "No check was loosened at any point.")
-gen['status'] = (f"{len(seeds)} independently seeded property-breaking changes are kept under `/verif/seeded/` ({len(seeds)-neutral} detected, {neutral} neutralised by a repair, see §11). "
+gen['status'] = (f"{len(seeds)} independently seeded property-breaking changes are kept under `/verif/seeded/` ({len(seeds)-neutral-undetected} detected, {neutral} neutralised by a repair, {undetected} not detected by their own check, see §11). "
                  f"While building, the checks found **{n_fixed_lines} genuine defects that were repaired** in {len(commits)} separate unguarded `fix:` commits in /repo (the 1099-test suite passes, unedited, after each) "
                  f"and **{n_findings} that are recorded as known findings** (`/verif/KNOWN_FINDINGS.txt`; §10).")
 
